@@ -260,6 +260,21 @@ def _fails(prop, cfg, ops, key, known):
 
 
 def shrink(prop, cfg, ops, key, known=(), budget_s=60.0):
+    """Best effort: whatever goes wrong while minimising, the last list that is known to fail
+    the same way is returned."""
+    state = {"ops": list(ops), "best": None}
+    try:
+        return _shrink(prop, cfg, ops, key, known, budget_s, state)
+    except HangError:
+        raise
+    except Exception:       # noqa: BLE001
+        if state["best"] is not None:
+            return state["ops"], state["best"]
+        ok, r = _fails(prop, cfg, ops, key, known)
+        return (list(r.ops) if ok else ops), r
+
+
+def _shrink(prop, cfg, ops, key, known, budget_s, state):
     """ddmin over the operation list, then operand simplification, while the
     same clause of the same property with the same signature still fails."""
     t0 = REAL_MONO()
@@ -268,6 +283,7 @@ def shrink(prop, cfg, ops, key, known=(), budget_s=60.0):
         return ops, r
     ops = list(r.ops)     # drop everything after the failing step
     best = r
+    state["ops"], state["best"] = ops, best
     n = 2
     while len(ops) >= 2 and REAL_MONO() - t0 < budget_s:
         chunk = max(1, len(ops) // n)
@@ -280,6 +296,7 @@ def shrink(prop, cfg, ops, key, known=(), budget_s=60.0):
             if ok:
                 ops = list(r.ops)
                 best = r
+                state["ops"], state["best"] = ops, best
                 n = max(n - 1, 2)
                 reduced = True
                 break
@@ -312,6 +329,7 @@ def shrink(prop, cfg, ops, key, known=(), budget_s=60.0):
                     if ok and len(r.ops) <= len(ops):
                         ops = list(r.ops)
                         best = r
+                        state["ops"], state["best"] = ops, best
                         changed = True
                         break
                 if changed:
@@ -326,6 +344,8 @@ def shrink(prop, cfg, ops, key, known=(), budget_s=60.0):
         progress = True
         while progress and REAL_MONO() - t0 < budget_s:
             progress = False
+            if i >= len(ops) or "spec" not in ops[i]:
+                break       # an accepted candidate may have dropped skipped operations before this one
             paths = []
 
             def walk(node, path):
@@ -352,6 +372,7 @@ def shrink(prop, cfg, ops, key, known=(), budget_s=60.0):
                 if ok and len(r.ops) <= len(ops):
                     ops = list(r.ops)
                     best = r
+                    state["ops"], state["best"] = ops, best
                     progress = True
                     break
     return ops, best
